@@ -255,8 +255,8 @@ def judge_relay(cfg, stage, how):
             base = {'side': 'relay', 'lmtp': bool(cfg.get('lmtp')), 'pipelining': True, 'concurrent': True}
             if whole == 'blocked' or rec['end'] is None:
                 out.append((dict(base, kind='attempt-never-returned', stage=stage.rstrip('0123456789'), how=how), desc))
-            elif rec['end'] > limit + 1e-6:
-                out.append((dict(base, kind='attempt-returned-late', stage=stage.rstrip('0123456789'), how=how), desc))
+            elif rec['end'] > rec['start'] + limit + 1e-6:
+                out.append((dict(base, kind='attempt-returned-late', stage=stage.rstrip('0123456789'), how=how), desc + ' (called at t=%r)' % rec['start']))
         return out
     w = SmtpRelayWorld(Chooser(), c).run()
     rec = w.results[0]
@@ -316,6 +316,7 @@ def relay_cases(tier):
         for st in ('connect', 'banner', 'mail', 'eod0' if lmtp else 'eod'):
             for ps in (None, 2):
                 yield dict(lmtp=lmtp, n=1, envelopes=2, concurrent=True, pool_size=ps), st, 'stall'
+                yield dict(lmtp=lmtp, n=1, envelopes=2, concurrent=True, pool_size=ps, stagger=1.0), st, 'stall'
     for lmtp in (False, True):
         yield dict(lmtp=lmtp, n=1, unsolicited_partial='421 4.4.2 idl', idle_timeout=5.0, max_steps=400), 'unsolicited', 'stall'
 
